@@ -34,7 +34,7 @@ PROPS = {
     "C01": sysprop(["C01"], ["default", "exit", "local"], 250, 4000, GEN_RULE + "; plus live scenarios with the real background "
                    "thread (20 ms interval) and the real flush(): 1-3 worker threads, hand-off of spans, exit right after finishing; "
                    "delivery without any further call within 10 s, or by the return of flush()",
-                   extra=[S.verdict_stream_for("live", "core", "live", 12, 300, shards=4)]),
+                   extra=[S.verdict_stream_for("live", "core", "live", 12, 300, shards=4), S.verdict_stream_for("aged", "core", "aged", 30, 1200, shards=4)]),
     "C07": sysprop(["C07"], ["mixed", "overload", "adapters", "local", "exit"], 200, 3000, GEN_RULE + "; plus tracing calls issued "
                    "from a thread-local destructor registered before / after fastrace's own thread-locals", release_too=True,
                    extra=[S.verdict_stream_for("teardown", "core", "teardown", 40, 1000, shards=4)]),
@@ -84,9 +84,11 @@ PROPS = {
                     "segmentation into datagrams < 8000 bytes that keeps every span fitting alone exactly once in order",
             "trusted_base": ["harness/reporters (generator, loopback UDP capture with end marker)"],
             "assumptions": ["sizes are those of the modelled Thrift encoding, compared byte for byte with the real one in C19"]},
-    "C03": sysprop(["C03"], ["cancelable", "adapters", "exit"], 250, 4000, GEN_RULE),
+    "C03": sysprop(["C03"], ["cancelable", "adapters", "exit"], 250, 4000, GEN_RULE + "; plus aged scenarios: two threads with 1-41 earlier traces and a collector that has run 0-2100 cycles over their empty rings, then a trace with its root on one thread and a child (local span, event) finished on the other: every span exactly once, by the first cycle after it finished, cancelable in one report call, nothing retained",
+                   extra=[S.verdict_stream_for("aged", "core", "aged", 30, 1200, shards=4)]),
     "C04": sysprop(["C04"], ["cancelable", "default", "overload"], 250, 4000, GEN_RULE),
-    "C08": sysprop(["C08"], ["mixed", "exit", "cancelable", "default"], 250, 4000, GEN_RULE),
+    "C08": sysprop(["C08"], ["mixed", "exit", "cancelable", "default"], 250, 4000, GEN_RULE + "; plus aged scenarios: two threads with 1-41 earlier traces and a collector that has run 0-2100 cycles over their empty rings, then a trace with its root on one thread and a child (local span, event) finished on the other: every span exactly once, by the first cycle after it finished, cancelable in one report call, nothing retained",
+                   extra=[S.verdict_stream_for("aged", "core", "aged", 30, 1200, shards=4)]),
     "C09": sysprop(["C09"], ["overload", "mixed"], 250, 4000, GEN_RULE),
     "C10": sysprop(["C10", "C10_consts"], ["local", "overload", "adapters"], 250, 4000, GEN_RULE),
 }
